@@ -95,7 +95,10 @@ class View(Val):
     def __init__(self, base, idx):
         self.base = base
         self.idx = idx       # ('entry', la, lb) | ('slice', lo, hi) | ('at', i) | ('col', j) | ('diag', i)
-    kind = 'array'
+
+    @property
+    def kind(self):
+        return 'scalar' if self.idx[0] in ('at', 'entryc') else 'array'
 
     def __repr__(self):
         return 'View<%r of %r>' % (self.idx, self.base)
@@ -390,7 +393,7 @@ class Interp(object):
         if isinstance(v, Arr):
             return v.t, 'array'
         if isinstance(v, View):
-            return self.read_view(v, node), 'array'
+            return self.read_view(v, node), v.kind
         if isinstance(v, Const) and isinstance(v.v, bool):
             return N.NF.const(1 if v.v else 0), 'scalar'
         if isinstance(v, Seq) and len(v.items) == 1:
